@@ -100,4 +100,7 @@ def check(ctx):
                 hit is not None, "C02-h", RES + cls + ".simulate:mesh ratio", f"{fc.file}:{ev.line}",
                 "k / (dt * alpha_scaled) == 1/dx^2 with dx = 1/nx or 1/(nx-1) (the two node conventions of the code)", signature="mesh constant", mesh=nf.show(mesh, 120), convention=hit,
             )
+    from .c04 import check_all_steps_and_storage
+
+    check_all_steps_and_storage(ctx, "C02-i", None)
     ctx.floor("C02", len(ctx.obligs), 30, "consistency obligations")
